@@ -777,6 +777,10 @@ func main() {
 		for _, cs := range corpus {
 			run(c, cs)
 		}
+		// the wire findings (fractional seconds of TIMESTAMP(6) / TIME(6) lost over the binary protocol)
+		run(c, caseT{Kind: "wire", Storable: true, Wire: &wireT{Vals: []string{"1", "1", "1", "1", "1", "1", "1", "1", "1", "1", "1.000", "1", "1",
+			"'2024-01-02'", "'2024-01-02 03:04:05.5'", "'2024-01-02 03:04:05'", "'2024-01-02 03:04:05.25'", "'1990-01-11 12:37:38.190440'",
+			"'769:53:03.209061'", "2024", "1", "1", "1", "'a'", "'a'"}}})
 		nWire := c.N / 10
 		for i := len(corpus); i < c.N-nWire; i++ {
 			run(c, gen(c.R.Fork()))
